@@ -113,31 +113,61 @@ func Increasing(ev []int) bool {
 	return false
 }
 
+// A left-pad event needs the top byte of I_j, the top byte of B (= A_i[0]) and the carry into the top byte
+// all to be zero; a pad of two bytes needs the same of the next byte. So the search fixes leading zero bytes
+// in the blocks of I (salt starting 00, password starting with U+0000 or empty → 00 00 …) and only has to wait
+// for A_i[0] = A_i[1] = 0 (2^-16 per round).
 type shape struct {
-	saltLen, pwLen, iter, size, want int
-	ids                              []byte
-	bmpEmpty                         bool // password = 00 00 (BMP "")
+	name          string
+	saltLen       int
+	saltZeros     []int // indices of the salt forced to zero
+	pw            func(r *rng) []byte
+	iter, size    int
+	want          int
+	ids           []byte
+}
+
+func bmpNul(n int) func(r *rng) []byte { // U+0000 followed by n random Latin/CJK characters, then the terminator
+	return func(r *rng) []byte {
+		b := []byte{0, 0}
+		for i := 0; i < n; i++ {
+			hi := byte(0)
+			if r.u64()%4 == 0 {
+				hi = byte(0x4e + r.u64()%0x50)
+			}
+			b = append(b, hi, byte(0x20+r.u64()%0x5f))
+		}
+		return append(b, 0, 0)
+	}
+}
+
+func bmpRandom(n int) func(r *rng) []byte {
+	return func(r *rng) []byte {
+		var b []byte
+		for i := 0; i < n; i++ {
+			b = append(b, 0, byte(0x20+r.u64()%0x5f))
+		}
+		return append(b, 0, 0)
+	}
 }
 
 func main() {
+	empty := func(r *rng) []byte { return []byte{0, 0} }
 	shapes := []shape{
-		// what the package itself derives: 8-byte salt, BMP password, 24-byte 3DES key (one round, two blocks: ~2^-24)
-		{saltLen: 8, pwLen: 0, bmpEmpty: true, iter: 1, size: 24, want: 4, ids: []byte{1}},
-		{saltLen: 8, pwLen: 14, iter: 1, size: 24, want: 3, ids: []byte{1, 2, 3}},
-		// more blocks and more rounds
-		{saltLen: 20, pwLen: 130, iter: 1, size: 24, want: 6, ids: []byte{1, 2, 3}},
-		{saltLen: 64, pwLen: 64, iter: 1, size: 24, want: 3, ids: []byte{1, 2, 3}},
-		{saltLen: 8, pwLen: 30, iter: 2, size: 40, want: 8, ids: []byte{1, 2, 3}},
-		{saltLen: 8, pwLen: 16, iter: 1, size: 64, want: 10, ids: []byte{1, 2, 3}},
-		{saltLen: 40, pwLen: 200, iter: 1, size: 61, want: 14, ids: []byte{1, 2, 3}},
-		{saltLen: 8, pwLen: 2, iter: 1, size: 44, want: 4, ids: []byte{1, 2, 3}},
-	}
-	if len(os.Args) > 1 { // skip the first n shapes (already in the corpus)
-		var n int
-		fmt.Sscan(os.Args[1], &n)
-		for i := 0; i < n && i < len(shapes); i++ {
-			shapes[i].want = 0
-		}
+		// the package's own derivations: 8-byte salt, BMP password, 24-byte 3DES key (one round, two blocks)
+		{name: "api-empty-password", saltLen: 8, saltZeros: []int{0}, pw: empty, iter: 1, size: 24, want: 6, ids: []byte{1}},
+		{name: "api-empty-password-iter", saltLen: 8, saltZeros: []int{0}, pw: empty, iter: 3, size: 24, want: 2, ids: []byte{1}},
+		{name: "api-nul-first-char", saltLen: 8, saltZeros: []int{0}, pw: bmpNul(5), iter: 1, size: 24, want: 4, ids: []byte{1}},
+		// the same through the hook for the IV and MAC-key diversifiers
+		{name: "id2-id3", saltLen: 8, saltZeros: []int{0}, pw: empty, iter: 1, size: 24, want: 6, ids: []byte{2, 3}},
+		{name: "id2-id3-nul", saltLen: 20, saltZeros: []int{0}, pw: bmpNul(9), iter: 2, size: 24, want: 4, ids: []byte{2, 3}},
+		// two salt blocks: 00 xx … | 00 00 …, any password
+		{name: "two-salt-blocks", saltLen: 128, saltZeros: []int{0, 64, 65}, pw: bmpRandom(7), iter: 1, size: 24, want: 6, ids: []byte{1, 2, 3}},
+		{name: "two-salt-blocks-pw31", saltLen: 128, saltZeros: []int{0, 64, 65}, pw: bmpRandom(31), iter: 1, size: 24, want: 3, ids: []byte{1, 2, 3}},
+		// more rounds: later rounds work on already-updated blocks
+		{name: "three-rounds", saltLen: 8, saltZeros: []int{0}, pw: empty, iter: 1, size: 64, want: 6, ids: []byte{1, 2, 3}},
+		{name: "two-rounds-nul", saltLen: 8, saltZeros: []int{0}, pw: bmpNul(12), iter: 1, size: 41, want: 6, ids: []byte{1, 2, 3}},
+		{name: "pad-1-then-3", saltLen: 128, saltZeros: []int{0, 64, 65, 66}, pw: bmpRandom(3), iter: 1, size: 24, want: 2, ids: []byte{1}},
 	}
 	var mu sync.Mutex
 	for si, sh := range shapes {
@@ -158,19 +188,15 @@ func main() {
 					}
 					for t := 0; t < 20000; t++ {
 						salt := r.bytes(sh.saltLen)
-						pw := r.bytes(sh.pwLen)
-						if sh.bmpEmpty {
-							pw = []byte{0, 0}
-						} else {
-							for k := 0; k+1 < len(pw); k += 2 { // BMP-looking: mostly Latin, terminator at the end
-								if r.u64()%4 != 0 {
-									pw[k] = 0
-								}
-							}
-							if len(pw) >= 2 {
-								pw[len(pw)-1], pw[len(pw)-2] = 0, 0
+						for k := range salt { // no accidental zeros next to the forced ones
+							if salt[k] == 0 {
+								salt[k] = 0x5a
 							}
 						}
+						for _, z := range sh.saltZeros {
+							salt[z] = 0
+						}
+						pw := sh.pw(r)
 						id := sh.ids[int(r.u64()%uint64(len(sh.ids)))]
 						ev := st.padEvents(salt, pw, sh.iter, id, sh.size)
 						if len(ev) >= 2 && Increasing(ev) {
@@ -193,6 +219,6 @@ func main() {
 			}(w)
 		}
 		wg.Wait()
-		fmt.Fprintf(os.Stderr, "shape %d: %d found\n", si, found)
+		fmt.Fprintf(os.Stderr, "%s: %d found\n", sh.name, found)
 	}
 }
